@@ -315,7 +315,7 @@ func c14centre(r *h.Rand, z uint) (float64, float64, float64) {
 func init() {
 	h.Register(&h.Monitor{
 		ID: "C14",
-		Rule: "zoom 0..22; points and multi-points; polylines of positive length (2..10 vertices, 0.2..30 tiles across, vertices snapped onto exact tile corners and grid lines with probability 1/8, repeated vertices); simple polygons (exact simplicity filter in tile space) with 0..2 validated holes, sub-tile to 30 tiles across; multi-polygons, collections, bounds; MergeUp / MergeUpPartial on covers, aligned full blocks, nearly full blocks and random sets with every target zoom <= cover zoom. " +
+		Rule: "zoom 0..22; points and multi-points; polylines of positive length (2..10 vertices, 0.2..30 tiles across, vertices snapped onto exact tile corners and grid lines with probability 1/8, repeated vertices); simple polygons (exact simplicity filter in tile space) with 0..2 validated holes, sub-tile to 30 tiles across; multi-polygons, collections, bounds; MergeUp / MergeUpPartial on covers, aligned full blocks, nearly full blocks and random sets with every target zoom <= cover zoom; runs of whole-degree vertices straight in longitude/latitude, multi-polygons of a polygon and an island in its lake, Set.Merge against a union built by the monitor. " +
 			"non-trivial = the geometry's cover has at least 2 tiles, or a merge that changes the set; distinct = hash of (zoom, coordinates)",
 		MinNontrivial: h.Fixed(1500, 150000),
 		Assumptions: []string{
